@@ -1770,6 +1770,26 @@ class P(Prop):
                         yield dict(case, glob=g, sig=sig, mode=mode)
 
 
+# ---- minCircle inside the model (Model/MinCircle.lean): the two findings as theorems, and what the routine does guarantee ----
+P.theorems = P.theorems + [
+    ("TracklibVerif.Props.C12MinCircle", "TV.C12.mincircle_not_enclosing",
+     "finding stops-mincircle-not-enclosing as a theorem about the model: for the fixes (4,0),(1,0),(3,2),(2,2) and 14 listed draws minCircle returns centre (3,1), squared radius 2, and (1,0) is at squared distance 5 of the centre — not enclosed"),
+    ("TracklibVerif.Props.C12MinCircle", "TV.C12.mincircle_none",
+     "finding stops-mincircle-none as a theorem about the model: five distinct fixes, three of them collinear, 23 listed draws: minCircle returns None"),
+    ("TracklibVerif.Props.C12MinCircle", "TV.C12.mincircle_none_same_place",
+     "a place met twice at two altitudes plus any third fix: ENUCoords.__eq__ compares the altitude, both fixes join the boundary set, None (witness draws)"),
+    ("TracklibVerif.Props.C12MinCircle", "TV.C12.circle_two_minimal",
+     "__circle(p,q) in exact arithmetic: both points on the circle, no disc containing both is smaller (the true minimal circle)"),
+    ("TracklibVerif.Props.C12MinCircle", "TV.C12.circle_three",
+     "__circle(p1,p2,p3) in exact arithmetic: None iff collinear; the random.random() perturbation branches are dead; otherwise a circle enclosing the three points — a two-point CANDIDATE (then the smallest disc containing the three points, third point strictly inside, NOT on the circle) or, with no candidate, the circle THROUGH the three points"),
+    ("TracklibVerif.Props.C12MinCircle", "TV.C12.mincircle_answer",
+     "for EVERY draw sequence: the model neither runs out of fuel nor perturbs; the answer is the leaf circle of a list R' of input points and, when a circle, encloses the (up to three) points it is built on — nothing more (mincircle_not_enclosing)"),
+    ("TracklibVerif.Props.C12MinCircle", "TV.C12.mincircle_none_only_collinear",
+     "minCircle returns None ONLY IF three entries of the input are collinear in the plane (two may be the same place): never on a track with no three collinear fixes, whatever the draws"),
+    ("TracklibVerif.Props.C12MinCircle", "TV.C12.encloses_sound",
+     "the certificate `enc` the driver evaluates on every answer of the mc stream is sound"),
+]
+
 # ---- TIE3: translation tie of optimalPartition's D / M tables (generated TV.Gen.Segmentation.optimalPartition_tables) ----
 P.tie_modules = getattr(P, "tie_modules", []) + ["TracklibVerif.Tie.C12"]
 P.theorems = P.theorems + [
